@@ -403,15 +403,19 @@ func syncChild() {
 			var out string
 			deadline := time.Now().Add(240 * time.Second)
 			blockedSeen := 0
+			wait := 250 * time.Microsecond
 		wait:
 			for {
 				select {
 				case out = <-res:
 					break wait
-				case <-time.After(3 * time.Millisecond):
+				case <-time.After(wait):
+					if wait < 4*time.Millisecond {
+						wait *= 2
+					}
 					if blockedStatus(id) {
 						blockedSeen++
-						if blockedSeen >= 3 {
+						if blockedSeen >= 2 {
 							out = "block"
 							break wait
 						}
